@@ -45,7 +45,9 @@ type convScn struct {
 	Coalesce bool     `json:"coalesce,omitempty"`
 	Pairs    bool     `json:"pairs,omitempty"`     // two frames per read
 	Close    bool     `json:"close,omitempty"`     // the terminal closes after its last frame
+	Split    bool     `json:"split,omitempty"`     // every frame is cut in the middle: a read is the tail of one frame + the head of the next
 	Stab     bool     `json:"stability,omitempty"` // C09 oracle: kept messages compared at every callback
+	Plain    bool     `json:"plain,omitempty"`     // the server's own default handlers and eventer (no recording handlers)
 }
 
 type convRun struct {
@@ -58,7 +60,7 @@ func convMake(scn convScn) func() (func(), any) {
 		vnet.Reset()
 		r := &convRun{scn: scn}
 		body := func() {
-			r.w = startWorld(worldOpts{stab: scn.Stab})
+			r.w = startWorld(worldOpts{stab: scn.Stab, noRecord: scn.Plain})
 			for ci, msgs := range scn.Conns {
 				ci, msgs := ci, msgs
 				run := func() {
@@ -71,6 +73,21 @@ func convMake(scn convScn) func() (func(), any) {
 								all = append(all, m.frame()...)
 							}
 							p.Send(all)
+							continue
+						}
+						if scn.Split {
+							var all []byte
+							var cuts []int
+							for _, m := range msgs {
+								f := m.frame()
+								cuts = append(cuts, len(all)+len(f)/2)
+								all = append(all, f...)
+							}
+							pos := 0
+							for _, c := range append(cuts, len(all)) {
+								p.Send(all[pos:c])
+								pos = c
+							}
 							continue
 						}
 						if scn.Pairs {
@@ -188,8 +205,10 @@ func convCheck(res *vs.Result, user any) []vs.Violation {
 		if len(out) > 0 {
 			return out
 		}
-		// callbacks
-		out = append(out, r.checkCallbacks(ci, c, len(want))...)
+		// callbacks (not observable with the server's own default handlers)
+		if !r.scn.Plain {
+			out = append(out, r.checkCallbacks(ci, c, len(want))...)
+		}
 	}
 	return out
 }
@@ -229,6 +248,18 @@ func (r *convRun) matchScript(ci int) []tmsg {
 			for _, s := range r.scn.Conns {
 				if len(s) > 0 && ref.PhoneString(ref.BCD(s[0].Phone, 10)) == e.Snap.Phone {
 					return s
+				}
+			}
+		}
+	}
+	if r.scn.Plain {
+		// no recorder: identify the script by the phone the server addressed its first reply to
+		for _, o := range vnet.Conns()[ci].Out {
+			if f, err := ref.Decode(o.Data); err == nil {
+				for _, s := range r.scn.Conns {
+					if len(s) > 0 && ref.PhoneString(ref.BCD(s[0].Phone, 10)) == ref.PhoneString(f.PhoneBCD) {
+						return s
+					}
 				}
 			}
 		}
@@ -596,6 +627,8 @@ func c06Run(ctx *vc.Ctx, rep *vc.Report) {
 		{Name: "sched:response-then-request", Conns: [][]tmsg{{{ID: 0x0001, Phone: p1, Serial: 5}, {ID: 0x0801, Phone: p1, Serial: 6}, {ID: 0x1212, Phone: p1, Serial: 7}}}},
 		{Name: "sched:coalesced3", Conns: [][]tmsg{{{ID: 0x0002, Phone: p1, Serial: 1}, {ID: 0x0200, Phone: p1, Serial: 2}, {ID: 0x0704, Phone: p1, Serial: 3}}}, Coalesce: true},
 		{Name: "sched:two-conns", Conns: [][]tmsg{{{ID: 0x0100, Phone: p1, Serial: 1}, {ID: 0x0002, Phone: p1, Serial: 2}}, {{ID: 0x0100, V2019: true, Phone: p2, Serial: 1}, {ID: 0x0200, V2019: true, Phone: p2, Serial: 2}}}},
+		{Name: "sched:plain-two-conns-auth", Plain: true, Conns: [][]tmsg{{{ID: 0x0102, Phone: p1, Serial: 1}, {ID: 0x0801, Phone: p1, Serial: 2}}, {{ID: 0x0102, V2019: true, Phone: p2, Serial: 1, Variant: 1}, {ID: 0x0801, V2019: true, Phone: p2, Serial: 2, Variant: 1}}}},
+		{Name: "sched:plain-two-conns-1212", Plain: true, Conns: [][]tmsg{{{ID: 0x1212, Phone: p1, Serial: 1}, {ID: 0x0100, Phone: p1, Serial: 2}}, {{ID: 0x1212, Phone: p2, Serial: 1, Body: "03622e6a010000000a"}, {ID: 0x0002, Phone: p2, Serial: 2}}}},
 		{Name: "sched:two-conns-b", Conns: [][]tmsg{{{ID: 0x0102, Phone: p1, Serial: 1, Variant: 1}, {ID: 0x1003, Phone: p1, Serial: 2}}, {{ID: 0x0002, Phone: p2, Serial: 1}, {ID: 0x0805, Phone: p2, Serial: 2}}}},
 	}
 	for _, f := range fams {
